@@ -89,6 +89,10 @@ def setup():
              "  def meth(self, y=None):\n    return y\n")
   with open(os.path.join(d, 'c06pkg', 'other.py'), 'w') as fh:
     fh.write("def fn(a=None):\n  return a\n\ndef Zed(a=None):\n  return a\n")
+  os.makedirs(os.path.join(d, 'Zc06Upper'))
+  open(os.path.join(d, 'Zc06Upper', '__init__.py'), 'w').close()
+  with open(os.path.join(d, 'Zc06Upper', 'Mod.py'), 'w') as fh:
+    fh.write("def fn(a=None, b=None):\n  return (a, b)\n")
   sys.path.insert(0, d)
   import atexit
   atexit.register(lambda: shutil.rmtree(d, ignore_errors=True))
@@ -379,6 +383,8 @@ DYN = {
     'alias_is_other_module_name': ('B', HEAD + "from c06pkg import sub as other\ninclude 'c06_b.gin'\nother.mod.fn.a = 1\n",
                                    HEAD + "from c06pkg import other\nother.fn.a = 2\n"),
     'static_mix': "import json\nc06.f.x = 1\n",
+    'capitalised_package': HEAD + "import Zc06Upper.Mod\nimport c06pkg.other\nZc06Upper.Mod.fn.a = 1\nc06pkg.other.fn.a = 2\n",
+    'capitalised_from': HEAD + "from Zc06Upper import Mod as M\nM.fn.b = [1, 2]\n",
 }
 
 
@@ -423,7 +429,11 @@ def run_dyn(case, res):
   gin.parse_config(text)
   obs1 = dyn_observe()
   cfg._OPERATIVE_CONFIG.clear()
-  s = gin.config_str(max_line_length=mll, continuation_indent=ci)
+  try:
+    s = gin.config_str(max_line_length=mll, continuation_indent=ci)
+  except Exception as e:  # pylint: disable=broad-except
+    res.violation('dynamic_config_str_raises', '%r: config_str raised %r' % (desc, e), desc)
+    return
   harness.hard_reset()
   try:
     gin.parse_config(s)
